@@ -268,6 +268,13 @@ def oracle(line, out):
                 x, y = int.from_bytes(u[1:33], "big"), int.from_bytes(u[33:], "big")
                 if (y * y - x ** 3 - 7) % P != 0:
                     return "accepted key is not on the curve"
+                if len(b) == 65 and b[0] in (6, 7):
+                    # the hybrid form carries x, y AND the parity of y: an accepted one must be that point, and a
+                    # string whose parity byte contradicts its own y encodes no point at all
+                    if (x, y) != (int.from_bytes(b[1:33], "big"), int.from_bytes(b[33:], "big")):
+                        return "hybrid SEC encoding parsed to another point than the one it spells out"
+                    if (b[0] & 1) != (y & 1):
+                        return "hybrid SEC encoding whose parity byte contradicts its y coordinate was accepted"
         return None
     return None
 
